@@ -164,6 +164,13 @@ def spec_for(draw, text, kind=None, with_delay=False, hash_mods=(2, 3, 4)):
                                [0, 'sat\n', 'warning\n']]))
     if tt == ff:
         ff = [tt[0] + 1, tt[1], tt[2]]
+    if draw(st.integers(0, 7)) == 0:
+        # the two answers differ in their line endings only (CR LF / CR / LF are different bytes)
+        base = draw(st.sampled_from(['sat', 'unsat: core', 'error at line 1']))
+        e1, e2 = draw(st.sampled_from([('\r\n', '\n'), ('\n', '\r\n'), ('\r', '\n'), ('\n', '\n\n')]))
+        k = draw(st.sampled_from([1, 2]))
+        tt, ff = [0, '', ''], [0, '', '']
+        tt[k], ff[k] = base + e1, base + e2
     sp = dict(pred=pred, T=tt, F=ff, noise=None, delay=None, fault=None, directive=False)
     if with_delay:
         sp['delay'] = [draw(st.integers(0, 10**6)), draw(st.sampled_from([[0, 1, 5, 20], [0, 0, 2, 10], [0, 3]]))]
@@ -220,6 +227,13 @@ def run_case(draw, strategies=('ddmin', 'hierarchical', 'hybrid'), jobs=(1, 2, 4
         text = base.replace('\n', draw(st.sampled_from(['\n', '\r\n', '\n\t', ' \n']))) + extra + '\n'
     else:
         text = draw(script(1, max_asserts))
+    if draw(st.integers(0, 3)) == 0:
+        # long atoms that occur more than once: symbols, binary constants, string literals
+        sym = 'a_rather_long_symbol_name_with_more_than_32_characters'
+        bits = '#b' + format(draw(st.integers(0, 2**40 - 1)), '040b')
+        lit = '"a string literal that is longer than thirty-two characters"'
+        text += (f'(declare-const {sym} (_ BitVec 40))\n(assert (= {sym} (bvand {sym} {bits})))\n'
+                 f'(assert (distinct {bits} (bvnot {sym})))\n(assert (= {lit} (str.++ {lit} "")))\n')
     sp = draw(spec_for(text, kind=draw(st.sampled_from(kinds)) if kinds else None, with_delay=with_delay))
     opts = dict(strategy=draw(st.sampled_from(strategies)), jobs=draw(st.sampled_from(jobs)), timeout=30)
     fmt = draw(st.sampled_from(formats))
